@@ -234,3 +234,20 @@ def units_argument_not_aliased(kind):
     if kind == 4 and obj.nodes[0].units_system != ref:
         return False
     return obj.units_system == ref and unitssystem_to_dict(obj.units_system) == d0 and obj.units_system is not us_
+
+
+def script_dict_times(u, tu):
+    """a script DICTIONARY whose sample times carry their own unit (other than the script's time unit): the loaded script holds those
+    times as physical quantities, the default t_max is the last of them, and writing it out and reading it again changes nothing"""
+    unit = ["min", "h", "ms", "s", "µs"][tu % 5]
+    fac = {"min": 60.0, "h": 3600.0, "ms": 1e-3, "s": 1.0, "µs": 1e-6}[unit]
+    d = {"system": rdsystem_to_dict(mk_system(u, 0, 1)), "t_sample": {"value": [0.0, 0.5, 1.0, 2.0], "units": unit}, "units": unitssystem_to_dict(us(u + 1))}
+    sc = rdscript_from_dict(d)
+    want = [0.0, 0.5 * fac, 1.0 * fac, 2.0 * fac]
+    got = [si(sc.t_sample.get_at(i)) for i in range(4)]
+    if any(abs(a - b) > 1e-12 * max(abs(b), 1e-300) for a, b in zip(got, want)):
+        return False
+    if abs(si(sc.t_max) - want[-1]) > 1e-12 * want[-1]:
+        return False
+    back = rdscript_from_dict(via_json(rdscript_to_dict(sc)))
+    return same_script(sc, back) and all(abs(si(back.t_sample.get_at(i)) - want[i]) <= 1e-12 * max(want[i], 1e-300) for i in range(4)) and abs(si(back.t_max) - want[-1]) <= 1e-12 * want[-1]
